@@ -11,6 +11,9 @@ THEOREMS = ["C19.other_subgraphs_untouched", "C19.performer_local", "C19.hcodes_
 
 
 def gen(rng, i):
+    if i % 4 == 1:
+        # one weight tied across two signatures whose readers sit at different operator positions x per-name / shipped / per-op recipes
+        return fp.gen_tied_case(rng, i, nsg=2)
     mb, info = gm.gen_model(rng, n_subgraphs=rng.choice([2, 2, 3]), share=0.25 if i % 3 == 0 else 0.0)
     data = gm.random_inputs(mb, rng, n=1)
     if i % 3 == 0:
